@@ -3,13 +3,13 @@ from vlib.gen import Unit, Fn, Adt, Raw
 
 M = "crates/compiler/src/mono.rs"
 TM = "<'a> TypeMono<'a>"
-KEEP = "final(self).enum_base == old(self).enum_base, final(self).struct_base == old(self).struct_base,"
+KEEP = "final(self).enum_base == old(self).enum_base, final(self).struct_base == old(self).struct_base, memo_grows(old(self).map, final(self).map),"
 WF = "twf({t}, old(self).enum_base, old(self).struct_base)"
 BOTH = "#[verifier::exec_allows_no_decreases_clause]\n#[verifier::loop_isolation(false)]"
 
 
 def minv(k, src):
-    return (f"invariant __mi{k} <= {src}.len(), __mo{k}@.len() == __mi{k}, self.enum_base == old(self).enum_base, self.struct_base == old(self).struct_base,\n"
+    return (f"invariant __mi{k} <= {src}.len(), __mo{k}@.len() == __mi{k}, self.enum_base == old(self).enum_base, self.struct_base == old(self).struct_base, memo_grows(old(self).map, self.map),\n"
             f"  forall|j: int| 0 <= j < __mi{k} ==> collapsed(#[trigger] __mo{k}@[j], old(self).known()),\n"
             f"decreases {src}.len() - __mi{k},")
 
@@ -20,20 +20,23 @@ CLONES = [(re.compile(r"\bg\.0\.clone\(\)"), "string_clone(&g.0)", "*"),
           (re.compile(r"\b(vname|fname)\.clone\(\)"), r"ident_clone(&\1)", "*"),
           (re.compile(r"\bnew_name\.clone\(\)"), "ident_clone(&new_name)", "*")]
 
-ZIP_INV = ("invariant __zk{k} <= generic_def.generics@.len(), __zk{k} <= args@.len(), self.enum_base == old(self).enum_base, self.struct_base == old(self).struct_base,\n"
+ZIP_INV = ("invariant __zk{k} <= generic_def.generics@.len(), __zk{k} <= args@.len(), self.enum_base == old(self).enum_base, self.struct_base == old(self).struct_base, memo_grows(old(self).map, self.map),\n"
            "  binds_params(subst@, generic_def.generics@, args@, __zk{k} as int),\n"
            "decreases generic_def.generics@.len() - __zk{k},")
-KEEPINV = "self.enum_base == old(self).enum_base, self.struct_base == old(self).struct_base,"
+KEEPINV = "self.enum_base == old(self).enum_base, self.struct_base == old(self).struct_base, memo_grows(old(self).map, self.map), self.map.has(__kv),"
 
 UNIT = Unit(
     name="U-TMONO",
-    properties=["C07"],
+    properties=["C07", "C04"],
+    # the memo-before-descent discipline is C04's (a self-referential generic type must not recurse forever); the rest is C07's
+    clause_scope={"C04": {"only": ["map.has("]}, "C07": {"except": ["map.has("]}},
     rules=["attrs", "fmtmsg", "msg_to_string", ("strip", "tast::"), "iter_map_collect", "for_zip", "for_into_iter"],
     describe="mono::TypeMono: collapse_type_apps leaves no application of a generic enum/struct anywhere in the type (tuples, functions, arrays, "
              "references and vectors: fully specialised types); ensure_instance builds an instance by binding the definition's parameters to "
              "EXACTLY the instantiation arguments (the table key), never reaches its arity panic!, and only ever hands well-formed types on; "
              "the generic definitions are never modified",
-    trusted=["termination of the collapse_type_apps / ensure_instance recursion is NOT claimed (it fails for polymorphically recursive types, DESIGN.md §5)",
+    trusted=["termination of the collapse_type_apps / ensure_instance recursion is NOT claimed (it fails for polymorphically recursive types, DESIGN.md §5); "
+             "only the necessary discipline `an instance is memoised before its definition is descended into` is (C04 clause)",
              "input types and generic definitions are assumed well formed (twf / defs_ok: plain names as application heads, declared arity, distinct "
              "parameter names) — that is the typer's job",
              "mono::subst_ty is a stub that preserves well-formedness (assumed); the instance table and monoenv are opaque (their contents are not specified)"],
@@ -46,6 +49,19 @@ UNIT = Unit(
             rewrites=[("IndexMap<(String, Vec<Ty>), TastIdent>", "InstMap"), ("IndexMap<TastIdent, EnumDef>", "DefMap<EnumDef>"),
                       ("IndexMap<TastIdent, StructDef>", "DefMap<StructDef>")]),
         Raw(path="contracts/tmono.shim.rs"),
+        Raw(text=lambda: f"""
+impl<'a> TypeMono<'a> {{
+// the recursive descent as made from INSIDE ensure_instance: same contract as collapse_type_apps, plus the termination
+// discipline (C04) that the instance under construction is already in the memo table
+{BOTH}
+pub fn collapse_in_instance(&mut self, Ghost(k): Ghost<(Seq<char>, Seq<Ty>)>, ty: &Ty) -> (r: Ty)
+    requires old(self).map.has(k),
+        old(self).defs_ok(), {WF.format(t='*ty')},
+    ensures collapsed(r, old(self).known()), {KEEP}
+        (*ty is TEnum || *ty is TStruct) ==> r == *ty,
+{{ self.collapse_type_apps(ty) }}
+}}
+"""),
         Fn(file=M, name="ensure_instance", container="TypeMono", as_method_of=TM, ret="r", attrs=BOTH,
            obligation="the instance's substitution binds each parameter of the generic definition to exactly the corresponding instantiation argument; "
                       "arity panic unreachable; types handed to collapse_type_apps are well formed",
@@ -53,7 +69,11 @@ UNIT = Unit(
                      ("let key = (name.to_string(), args.to_vec());", "let key = key_of(name, args);"),
                      ("return u.clone();", "return ident_clone(u);"),
                      ("TastIdent::new(&rt_msg())", "tast_ident_new(rt_msg().as_str())"), ("TastIdent::new(name)", "tast_ident_new(name)"),
-                     ("self.map.insert(key.clone(), new_name.clone());", "self.map.insert(key_clone(&key), ident_clone(&new_name));"),
+                     (re.compile(r"self\.map\.insert\(key\.clone\(\), new_name\.clone\(\)\);"), "self.map.insert(key_clone(&key), ident_clone(&new_name));", "*"),
+                     (re.compile(r"self\.map\.insert\(key, new_name\.clone\(\)\);"), "self.map.insert(key, ident_clone(&new_name));", "*"),
+                     # C04: every recursive descent made while building an instance goes through a wrapper that REQUIRES the
+                     # instance's own key to be memoised already (otherwise a self-referential type recurses forever)
+                     (re.compile(r"self\.collapse_type_apps\("), "self.collapse_in_instance(Ghost(__kv), ", "*"),
                      ("generic_def.variants.clone()", "enumdef_variants_clone(generic_def)"),
                      ("generic_def.fields.clone()", "structdef_fields_clone(&generic_def)"),
                      ("self.struct_base.get(&ident).cloned()", "(match self.struct_base.get(&ident) { Some(__d) => Some(structdef_clone(__d)), None => None })"),
@@ -63,7 +83,7 @@ UNIT = Unit(
             forall|i: int| 0 <= i < args@.len() ==> {WF.format(t='#[trigger] args@[i]')},
             arity_of(name@, old(self).enum_base, old(self).struct_base) matches Some(n) ==> args@.len() == n,
         ensures {KEEP}""",
-           ghost=[("@entry", "", "proof { broadcast use subst_ty_twf; }")],
+           ghost=[("@entry", "", "let ghost __kv = (name@, args@); proof { broadcast use subst_ty_twf; }")],
            loops={0: ZIP_INV.format(k=0),
                   1: f"invariant {KEEPINV} binds_params(subst@, generic_def.generics@, args@, args@.len() as int),\n"
                      f"  forall|i: int, j: int| 0 <= i < __iv0@.len() && 0 <= j < __iv0@[i].1@.len() ==> {WF.format(t='#[trigger] __iv0@[i].1@[j]')},\n decreases __iv0@.len(),",
